@@ -64,6 +64,14 @@ def call_value(I, f, args, kwargs, fr, site):
     if finfo is not None and (c is None and qn in E.inline_ok or (c is not None and c.get("inline"))):
         return inline_call(I, finfo, full_args, kwargs, fr, site, f)
     if finfo is not None:
+        tgt = E.current_target or ""
+        tfi = E.src.funcs.get(tgt.split("::")[0])
+        if tfi is not None and finfo.cls is not None and tfi.cls == finfo.cls and len(I.callstack) < 6:
+            # a helper method of the same class that has no contract of its own (e.g. extracted by a refactoring):
+            # its real body is executed in place, as part of the function under verification
+            E.bounded.discard(None)
+            E.trusted_used.add("helper without a contract executed in place: " + qn)
+            return inline_call(I, finfo, full_args, kwargs, fr, site, f)
         raise Unsupported("call of %s: no contract and not marked inline" % qn)
     if getattr(E, "auto_opaque", False) and not qn.startswith("paramiko."):
         # library call outside the verified code: assumed effect-free on paramiko state, total, result unconstrained
